@@ -7,7 +7,7 @@ STATE_NAMES = ["x", "v", "xx", "x_v1", "r", "rr", "z", "q1", "x_v1_v1", "u2"]
 ALG_NAMES = ["m", "r_out", "w1", "m_v1", "out"]
 INPUT_NAMES = ["r_in", "r_in0", "m_in", "m_in2", "inp", "x_in", "weight_in0"]
 CONST_NAMES = ["a", "k", "tau", "weight", "a1", "c_", "in_edge_0", "kk", "source", "index"]
-NODE_LABELS = ["p1", "p2", "p3", "pop", "n_1", "a_", "b", "p10", "p1_v1", "node"]
+NODE_LABELS = ["p1", "p2", "p3", "pop", "n_1", "a_", "b", "p10", "p1_v1", "node", "w1", "xx"]       # the last two coincide with variable names of the operator pool
 CIRC_LABELS = ["c1", "c2", "sub", "lvl"]
 
 
@@ -185,7 +185,10 @@ def gen_model(rng, max_nodes=5, depth=None, funcs=None, hostile=True, overrides=
     def gen_circ(level, name):
         if level == 0:
             n = rng.randint(min_nodes, max_nodes)
-            labels = rng.sample(NODE_LABELS if hostile else NODE_LABELS[:7], n)
+            pool = NODE_LABELS if hostile else NODE_LABELS[:7]
+            if n > len(pool):
+                pool = pool + [f"w{i}" for i in range(n)]      # (labels that coincide with variable names of the hostile pool, e.g. w1)
+            labels = rng.sample(pool, n)
             return {"name": name, "nodes": {l: rng.choice(sorted(node_templates)) for l in labels}, "edges": []}
         k = rng.randint(1, 2)
         labels = rng.sample(CIRC_LABELS, k)
